@@ -39,6 +39,7 @@ mod codec;
 mod gen_login;
 mod chunk;
 mod gen_login_async;
+mod gen_collective;
 
 pub fn hex(b: &[u8]) -> String {
     let mut s = String::with_capacity(b.len() * 2);
@@ -84,6 +85,8 @@ fn handle(ws: &[&str]) -> String {
         }
         ["eseq", exp, dir, api, key, msgs] => enc::eseq(exp, dir, api, key, msgs),
         ["cipherlaw", exp, key, data] => enc::cipherlaw(exp, key, data),
+        ["coll", v, dir, hex] => match unhex(hex) { Some(b) => gen_collective::coll(v.parse().unwrap_or(0), dir, &b).unwrap_or_else(|| "bad-op".into()), None => "bad-op".into() },
+        ["coll8", v, dir, hex] => match unhex(hex) { Some(b) => gen_collective::coll8(v.parse().unwrap_or(0), dir, &b).unwrap_or_else(|| "bad-op".into()), None => "bad-op".into() },
         ["chunk", lib, dir, sched] => chunk::chunk(lib, dir, sched),
         ["codec", lib, dir, hex] => codec::codec(lib, dir, hex),
         ["dec", lib, dir, hex] => {
